@@ -2489,7 +2489,7 @@ func (c *connection) handleRecvQueue(q lib.QueueMPSC) {
 				}
 				lib.ReleaseBuffer(buf)
 				buf = dbuf
-				goto re
+				goto unpacked
 
 			case gen.CompressionTypeLZW.ID():
 				dbuf, err := lib.DecompressLZW(buf, uint(skipBytes))
@@ -2499,7 +2499,7 @@ func (c *connection) handleRecvQueue(q lib.QueueMPSC) {
 				}
 				lib.ReleaseBuffer(buf)
 				buf = dbuf
-				goto re
+				goto unpacked
 
 			case gen.CompressionTypeZLIB.ID():
 				dbuf, err := lib.DecompressZLIB(buf, uint(skipBytes))
@@ -2509,12 +2509,21 @@ func (c *connection) handleRecvQueue(q lib.QueueMPSC) {
 				}
 				lib.ReleaseBuffer(buf)
 				buf = dbuf
-				goto re
+				goto unpacked
 
 			default:
 				c.log.Error("message with unknown compression type %d, ignored", buf.B[7])
 				continue
 			}
+
+		unpacked:
+			// a sender compresses a message once: the unpacked data is a plain message
+			if buf.Len() < 8 || buf.B[7] == protoMessageZ {
+				c.log.Error("malformed compressed message (unpacked data is not a message), ignored")
+				lib.ReleaseBuffer(buf)
+				continue
+			}
+			goto re
 
 		// case protoMessageF:
 		// TODO fragmentation
